@@ -10,6 +10,10 @@ def run(ctx):
     # random deeper programs over every operator, builtin and value kind, recorded from the real evaluator and validated by Trace_Expr
     tr = ctx.record("prog-random", "expr", ["-mode", "prog", "-n", 120000 if ctx.thorough else 6000, "-seed", ctx.seed * 100 + 3])
     ctx.validate("prog-random-validate", "trace/Trace_Expr.tla", "trace/Trace_Expr.cfg", tr, "expr", shards=14 if ctx.thorough else 2)
+    # per-node trace validation: every evaluated node of random programs judged locally (evaluation order, selected branch only,
+    # operator cells, member access, calls) given its children's observed results
+    nd = ctx.record("nodes-random", "nodes", ["-n", 8000 if ctx.thorough else 800, "-seed", ctx.seed * 100 + 53])
+    ctx.validate("nodes-random-validate", "trace/Trace_Nodes.tla", "trace/Trace_Nodes.cfg", nd, "nodes", shards=1)
     return ctx.finish(
         rule="every program of the family evaluated by the real evaluator under recover and a watchdog; compared: value XOR error "
              "(nil value with an error), pinned values/errors where other properties pin them; plus seeded random programs (depth <= 4, all operators / builtins / value kinds) validated by the trace specification; non-trivial = pinned cases",
